@@ -3,6 +3,7 @@ import Rq.Model.Oracle
 import Rq.Model.Kernels
 import Rq.Model.Plan
 import Rq.Model.BitMat
+import Rq.Model.Sparse
 import Rq.Model.Cache
 /-! Driver handlers for the codec engine (E3). I/O glue around the model functions. -/
 namespace Rq.DriverE3
@@ -248,12 +249,35 @@ open Rq Rq.Io
 inductive AnyMat where
   | spec (m : BitMat)
   | dense (m : Dense)
+  | sparse (m : Sparse)
+
+def sortNat (l : List Nat) : List Nat := (l.toArray.qsort (· < ·)).toList
+
+def stepSparse (m : Sparse) (op : List String) : Option (Sparse × String) :=
+  match op with
+  | ["s", r, c, v] => (m.set (nat r) (nat c) (v == "1")).map fun m' => (m', "ok")
+  | ["g", r, c] => (m.get (nat r) (nat c)).map fun v => (m, if v then "1" else "0")
+  | ["sr", i, j] => (m.swapRows (nat i) (nat j)).map fun m' => (m', "ok")
+  | ["sc", i, j, _] => (m.swapCols (nat i) (nat j)).map fun m' => (m', "ok")
+  | ["aa", d, s, st] => (m.addAssign (nat d) (nat s) (nat st)).map fun m' => (m', "ok")
+  | ["co", r, a, b] => (m.countOnes (nat r) (nat a) (nat b)).map fun n => (m, toString n)
+  | ["it", r, a, b] => (m.rowIter (nat r) (nat a) (nat b)).map fun l => (m, showList (sortNat l))
+  | ["oc", c, a, b] => (m.onesInCol (nat c) (nat a) (nat b)).map fun l => (m, showList (sortNat l))
+  | ["sro", r, s] => (m.subRow (nat r) (nat s)).map fun b => (m, s!"{b.length}:{showList b.words}")
+  | ["nz", r, s] => (m.nonZeroCols (nat r) (nat s)).map fun l => (m, showList (sortNat l))
+  | ["fr", c] => (m.freeze (nat c)).map fun m' => (m', "ok")
+  | ["en"] => m.enableIndex.map fun m' => (m', "ok")
+  | ["di"] => some (m.disableIndex, "ok")
+  | ["rs", h, w] => (m.resize (nat h) (nat w)).map fun m' => (m', "ok")
+  | ["dims"] => some (m, s!"{m.h}x{m.w}")
+  | _ => none
 
 def showBits (b : BinVec) : String := s!"{b.length}:{showList b.words}"
 
 /-- one op on either model; returns (new state, output token); `none` = panic -/
 def stepOp (st : AnyMat) (op : List String) : Option (AnyMat × String) :=
   match st, op with
+  | .sparse m, op => (stepSparse m op).map fun (m', o) => (.sparse m', o)
   | .spec m, ["s", r, c, v] => (m.set (nat r) (nat c) (v == "1")).map fun m' => (.spec m', "ok")
   | .dense m, ["s", r, c, v] => (m.set (nat r) (nat c) (v == "1")).map fun m' => (.dense m', "ok")
   | .spec m, ["g", r, c] => if nat r < m.h ∧ nat c < m.w then some (st, if m.get (nat r) (nat c) then "1" else "0") else none
@@ -288,7 +312,10 @@ def stepOp (st : AnyMat) (op : List String) : Option (AnyMat × String) :=
 def handle (w : List String) : Option String :=
   match w with
   | ["mat", kind, h, wd, ops] =>
-      let st0 : AnyMat := if kind == "dense" then .dense (Dense.new (nat h) (nat wd)) else .spec (BitMat.new (nat h) (nat wd))
+      let st0 : AnyMat :=
+        if kind == "dense" then .dense (Dense.new (nat h) (nat wd))
+        else if kind.startsWith "sparse" then .sparse (Sparse.new (nat h) (nat wd) (nat (kind.drop 6).toString))
+        else .spec (BitMat.new (nat h) (nat wd))
       let (_, outs) := (ops.splitOn ";").foldl (fun (acc : Option AnyMat × List String) op =>
         match acc.1 with
         | none => (none, acc.2 ++ ["-"])
